@@ -13,6 +13,7 @@ import (
 	"go/types"
 	"os"
 	"path/filepath"
+	"regexp"
 	"sort"
 	"strings"
 	"time"
@@ -208,7 +209,11 @@ func (r *Report) add(o Ob) {
 
 // mkKey builds a line-independent obligation key and disambiguates repeated
 // constructs within one function by ordinal.
+var inlSuffix = regexp.MustCompile(`(_arg)?_inl[0-9]+`)
+
 func (r *Report) mkKey(rule, where, construct string) string {
+	// names the expander made unique (x_inl3) answer to their original spelling
+	construct = inlSuffix.ReplaceAllString(construct, "")
 	k := rule + "|" + where + "|" + construct
 	id := r.curCfg + "\x00" + k
 	r.seen[id]++
